@@ -249,3 +249,56 @@ def validate_traces(tag, traces, nshards=16, extra=None):
     nev = 1 + (extra.count if extra else 0)
     blocks = comp.shard_eval(tag, TRACE_HEADER, terms, nev, nshards=nshards, timeout=1500)
     return blocks
+
+
+# ---------------------------------------------------------------------------------------------------------------
+# socket demultiplexer replay (model/Socket.v): registrations / removals / received datagrams of the traced node
+SOCK_HEADER = ("From BT Require Import model.Prelude model.Compact model.Krpc model.Socket run.Run_Socket.\nOpen Scope Z_scope.\n")
+
+
+def socket_events(log):
+    """[(kind, ...)] in log order: ('reg', Addr, tidhex) | ('unreg', Addr, tidhex) | ('recv', Addr, hex, code) with code
+    0 = undecodable (dropped), 1 = handed to a pending exchange, 2 = handed to the handler, 7 = not observed (end of run)."""
+    evs = []
+    open_recv = None
+    for (t, kind, body) in log:
+        if kind in ("REG", "UNREG"):
+            a, _, tid = body.partition(" ")
+            evs.append([kind.lower(), parse_sock(a), tid.strip()])
+        elif kind == "RECV":
+            a, h, status = body.split()
+            if status == "undecodable":
+                evs.append(["recv", parse_sock(a), h, 0])
+            else:
+                evs.append(["recv", parse_sock(a), h, 7])
+                open_recv = len(evs) - 1
+        elif kind == "TO_BOOTSTRAP" and open_recv is not None:
+            evs[open_recv][3] = 1
+            open_recv = None
+        elif kind == "EV_MSG" and open_recv is not None:
+            evs[open_recv][3] = 2
+            open_recv = None
+    return evs
+
+
+def socket_case(name, evs):
+    def ad(a):
+        return "(ad %s %d %d)" % ("true" if a.v6 else "false", a.ip, a.port)
+    items = []
+    for e in evs:
+        if e[0] == "reg":
+            items.append('XReg %s "%s"' % (ad(e[1]), e[2]))
+        elif e[0] == "unreg":
+            items.append('XUnreg %s "%s"' % (ad(e[1]), e[2]))
+        else:
+            items.append('XRecv %s "%s" %d' % (ad(e[1]), e[2], e[3]))
+    return "Definition %s : list xsev := [\n  %s\n]%%string.\nEval vm_compute in sock_case %s.\n" % (name, ";\n  ".join(items), name)
+
+
+def validate_socket(tag, logs, nshards=16):
+    """Returns, per log, the list of event indices at which the model routes a datagram differently from the real socket
+    (or at which a registration would have panicked)."""
+    all_evs = [socket_events(l) for l in logs]
+    terms = [socket_case("s%d" % i, evs) for i, evs in enumerate(all_evs)]
+    blocks = comp.shard_eval(tag, SOCK_HEADER, terms, 1, nshards=nshards, timeout=1500)
+    return all_evs, [vlib.parse_N_list(b[0]) for b in blocks]
